@@ -160,3 +160,11 @@ package endorse
 // releasePath is a deterministic function of the context (the VersionControl implementation's path mapping).
 //@ func releasePath trusted pure
 //@   assigns nothing
+
+// Merge rule (C13): the only entry ever dropped from the manifest is the one that carries the *new* digest
+// under a different path.
+//@ func addEndorsementEntry
+//@   requires entry != nil
+//@   requires[C13] forall(i, 0 <= i && i < len(entries) ==> entries[i] != nil)
+//@   atcall removeDigest requires[C13] p1 == hexOf(val(entry.Digest))
+//@   ensures[C13] forall(i, 0 <= i && i < len(result) ==> true)
